@@ -12,7 +12,7 @@ import (
 func init() {
 	register("C12", &propDef{
 		Title: "Failures are reported, never turned into silently partial results",
-		Rules: []func(*Checker){ruleC12Errors, ruleC12Illegal, ruleC12Whole, ruleC12Poison, ruleC12Closed, ruleC12Manifest, ruleC12Diags, ruleC12DiagCopy, ruleRootLink("C12.rootlink")},
+		Rules: []func(*Checker){ruleC12Errors, ruleC12Illegal, ruleC12Whole, ruleC12Poison, ruleC12Closed, ruleC12Manifest, ruleC12Diags, ruleC12DiagCopy, ruleRootLink("C12.rootlink"), ruleTraceCalls("C12.calls")},
 		NotDecided: []string{
 			"behaviour at a given byte offset; what archive/tar and compress/gzip report on truncation (library)",
 			"which error text is produced",
@@ -251,10 +251,22 @@ func isDiagnosticsType(t types.Type) bool {
 }
 
 func ruleC12Errors(c *Checker) {
-	const R = "C12.errors"
-	c.rule(R, "In slug, unpackinfo, ignorefiles and sourcebundle every call whose results include an error is classified: the error must be returned (directly, wrapped, through a result cell or phi), or compared with nil with the non-nil edge leading to a non-nil error return / an error diagnostic / a panic, or passed on (callback, tracer, wrapper struct). Accepted idioms: deferred Close of a file opened read-only, fmt.Fprint* to os.Stderr. Everything else needs a named exception with a reason.", 30)
+	checkErrorsIn(c, "C12.errors", "slug", "unpackinfo", "ignorefiles", "sourcebundle")
+}
+
+// ruleAddrErrors — the same discipline for the address parsers: a refused
+// address is refused by every parser that delegates to another one.
+func ruleAddrErrors(id string) func(*Checker) {
+	return func(c *Checker) { checkErrorsIn(c, id, "sourceaddrs") }
+}
+
+func checkErrorsIn(c *Checker, R string, pkgNames ...string) {
+	c.rule(R, "In "+strings.Join(pkgNames, ", ")+" every call whose results include an error is classified: the error must be returned (directly, wrapped, through a result cell or phi), or compared with nil with the non-nil edge leading to a non-nil error return / an error diagnostic / a panic, or passed on (callback, tracer, wrapper struct). Accepted idioms: deferred Close of a file opened read-only, fmt.Fprint* to os.Stderr. Everything else needs a named exception with a reason.", 30)
 	p := c.P
-	pkgs := map[string]bool{p.PkgPath("slug"): true, p.PkgPath("unpackinfo"): true, p.PkgPath("ignorefiles"): true, p.PkgPath("sourcebundle"): true}
+	pkgs := map[string]bool{}
+	for _, n := range pkgNames {
+		pkgs[p.PkgPath(n)] = true
+	}
 	perPkg := map[string]int{}
 	for _, fn := range p.Funcs {
 		outer := p.Outer(fn)
@@ -299,6 +311,40 @@ func ruleC12Errors(c *Checker) {
 					c.fail(R, name, construct, pos, "the error result of "+cn+" is dropped: a failure here is not reported to the caller")
 				}
 				continue
+			}
+			// a boolean predicate whose verdict IS the error: `_, err := f(x); return err == nil`
+			if res := fn.Signature.Results(); res.Len() == 1 && isBoolType(res.At(0).Type()) {
+				verdict, inverted, other := 0, 0, 0
+				for _, r := range *ev.Referrers() {
+					bo, isB := r.(*ssa.BinOp)
+					if _, isDbg := r.(*ssa.DebugRef); isDbg {
+						continue
+					}
+					if !isB || !(isNilConst(bo.Y) || isNilConst(bo.X)) {
+						other++
+						continue
+					}
+					returned := false
+					if br := bo.Referrers(); br != nil {
+						for _, rr := range *br {
+							if _, isRet := rr.(*ssa.Return); isRet {
+								returned = true
+							}
+						}
+					}
+					switch {
+					case returned && bo.Op == token.EQL:
+						verdict++
+					case returned && bo.Op == token.NEQ:
+						inverted++
+					default:
+						other++
+					}
+				}
+				if other == 0 && verdict+inverted > 0 {
+					c.check(inverted == 0, R, name, construct, pos, "a predicate: its result is `error == nil`", "a predicate (documented by its name as 'is valid' / 'looks like') returns `error != nil`: it answers true exactly for what "+cn+" refuses")
+					continue
+				}
 			}
 			u := p.errorUses(fn, ev)
 			if !(u.Returned || u.PassedOn) {
